@@ -114,6 +114,14 @@ class Schema:
     def F(self, field: str, sort):
         return fn("F_" + field, Ref, sort)
 
+    def attr_owners(self, o: Opaque, attr: str):
+        """(concrete classes below the static class of o that have the attribute, all concrete classes below it): the
+        attribute is a field the class owns (CLASS_FIELDS) or a method / property defined for it."""
+        below = [k for k in self.kinds.const if k in self.src.classes and (o.cls == "object" or self.src.is_subclass(k, o.cls))]
+        own = [k for k in below if attr in CLASS_FIELDS.get(k, ()) or self.src.find_method(k, attr) is not None
+               or self.src.find_class_attr(k, attr) is not None]
+        return own, below
+
     def has_field(self, o: Opaque, attr: str) -> bool:
         return (o.cls, attr) in CLASS_FIELD_SPECS or attr in FIELDS or attr in ("_numpy_func", "matrix")
 
@@ -186,6 +194,8 @@ class Schema:
             return SName(t_)
         if tag == "real":
             if mutable:
+                if attr == "_value":
+                    ip.path.event("param-read", o.ref)       # a Parameter's current value is read (C12 frame clause)
                 return SReal(z3.Select(ip.path.store_of(attr, R), o.ref), "float")
             return SReal(self.F(attr, R)(o.ref), "pynum" if attr == "value" else "float")
         if tag == "optreal":
